@@ -6,11 +6,11 @@ import DustVerif.Proofs.WrtLimits
 namespace DustVerif.Wrt
 
 /-- the DDS rule, stated on the counts a writer holds BEFORE the write: the write must be refused iff it is for an
-    unknown instance and max_instances instances exist, or the instance already holds max_samples_per_instance
+    instance that is not registered (unknown, or unregistered) and max_instances instances are registered, or the instance already holds max_samples_per_instance
     samples (not applicable when KEEP_LAST(depth) with depth <= that limit: the write replaces a sample), or
     max_samples samples are stored -/
 def Exceeds (q : Qos) (insts : List Inst) (k : Nat) : Prop :=
-  (findInst k insts = none ∧ ∃ m, q.maxInstances = some m ∧ m ≤ insts.length) ∨
+  (isReg insts k = false ∧ ∃ m, q.maxInstances = some m ∧ m ≤ regCount insts) ∨
   (∃ m, q.maxSpi = some m ∧ (∀ d, q.depth = some d → m < d) ∧ m ≤ samplesOfKey insts k) ∨
   (∃ m, q.maxSamples = some m ∧ m ≤ totalSamples insts)
 
@@ -34,8 +34,8 @@ theorem C19_writer_rejects_iff (s : St) (k : Nat) (v : Int) (ts now : Int) :
     cases hm : s.qos.maxSamples with
     | none => simp
     | some m => simp
-  have hinst : ((findInst k s.insts).isSome = false ∧ ltLen s.insts.length s.qos.maxInstances = false) ↔
-      (findInst k s.insts = none ∧ ∃ m, s.qos.maxInstances = some m ∧ m ≤ s.insts.length) := by
+  have hinst : (isReg s.insts k = false ∧ ltLen (regCount s.insts) s.qos.maxInstances = false) ↔
+      (isReg s.insts k = false ∧ ∃ m, s.qos.maxInstances = some m ∧ m ≤ regCount s.insts) := by
     unfold ltLen
     cases hm : s.qos.maxInstances with
     | none => simp
@@ -82,11 +82,12 @@ theorem C19_writer_accepts (s : St) (k : Nat) (v : Int) (ts now : Int) (h : (ent
   rcases entWrite_cases s k v ts now with hc | hc
   · rw [hc.1] at h; cases h
   · obtain ⟨_, _, hsn, _, hins, _, _, _⟩ := hc
-    have hfind : ∃ i, findInst k (regInsts s.insts k) = some i ∧ i.samples.length = samplesOfKey s.insts k := by
+    have hfind : ∃ i, findInst k (regInsts s.insts k) = some i ∧ i.samples.length = samplesOfKey s.insts k
+        ∧ i.registered = true := by
       rcases findInst_regInsts s.insts k with ⟨i, h1, _, hi⟩ | ⟨h1, _, hi⟩
-      · exact ⟨i, hi, by simp [samplesOfKey, h1]⟩
-      · exact ⟨_, hi, by simp [samplesOfKey, h1]⟩
-    obtain ⟨i0, hi0, hlen⟩ := hfind
+      · exact ⟨_, hi, by simp [samplesOfKey, h1], rfl⟩
+      · exact ⟨_, hi, by simp [samplesOfKey, h1], rfl⟩
+    obtain ⟨i0, hi0, hlen, hregd⟩ := hfind
     have hpush : ∀ (l : List Inst) (i : Inst) (sn : Nat), findInst k l = some i →
         findInst k (pushSample k sn l) = some { i with samples := i.samples ++ [sn] } := by
       intro l
@@ -107,7 +108,7 @@ theorem C19_writer_accepts (s : St) (k : Nat) (v : Int) (ts now : Int) (h : (ent
     refine ⟨hsn, ?_, ?_, ?_⟩
     · rw [hins, totalSamples_pushSample _ hi0, totalSamples_regInsts]
     · rw [hins]; simp [samplesOfKey, hpush _ _ _ hi0, hlen]
-    · rw [lookup, hins, hpush _ _ _ hi0]; rfl
+    · simp [lookup, isReg, hins, hpush _ _ _ hi0, hregd]
 
 /-- C19 (writer, public call): when `write` is answered OutOfResources and did not have to replace a sample, the
     writer is exactly as before -/
@@ -127,9 +128,13 @@ theorem C19_writer_method_refuses (s : St) (k : Nat) (v : Int) (ts now : Int)
       simp [entOut] at he
 
 /-- C19 (writer, no sample is sacrificed for a refused write): in every state that satisfies the limit invariant
-    (all reachable states, see C19_writer_limits) with a consistent QoS, a write that is answered OutOfResources has
-    not removed a sample on the KEEP_LAST path either -/
+    (all reachable states, see C19_writer_limits) with a consistent QoS, a write to a REGISTERED instance that is
+    answered OutOfResources has not removed a sample on the KEEP_LAST path either. (Excluded: the instance was
+    unregistered, its deque is still full and max_instances other instances are registered - then
+    write_w_timestamp evicts the oldest, acknowledged sample before DataWriterEntity refuses the re-registration;
+    observation noted in notes/w2c.md.) -/
 theorem C19_writer_no_evict_when_refused (s : St) (k : Nat) (v : Int) (ts now : Int) (hinv : WInv s)
+    (hreg : isReg s.insts k = true)
     (h : (methodWrite s k v ts now).2.reply = some .outOfResources) :
     (methodWrite s k v ts now).2.evicted = [] := by
   cases hf : fullFront s k with
@@ -148,8 +153,10 @@ theorem C19_writer_no_evict_when_refused (s : St) (k : Nat) (v : Int) (ts now : 
       have hex := (C19_writer_rejects_iff (evict s k sn) k v ts now).mp h
       have hfe : findInst k (evict s k sn).insts = some { i with samples := i.samples.tail } := by
         simp [evict, findInst_popFront, hi]
-      rcases hex with ⟨h1, _⟩ | ⟨m, hm, hdm, _⟩ | ⟨m, hm, hle⟩
-      · rw [hfe] at h1; cases h1
+      rcases hex with ⟨h1, m, hm, hle⟩ | ⟨m, hm, hdm, _⟩ | ⟨m, hm, hle⟩
+      · simp only [isReg, hfe] at h1
+        simp only [isReg, hi] at hreg
+        rw [hreg] at h1; cases h1
       · have := hq.2 d m hd hm
         have := hdm d hd
         omega
@@ -159,11 +166,11 @@ theorem C19_writer_no_evict_when_refused (s : St) (k : Nat) (v : Int) (ts now : 
         omega
 
 /-- C19 (writer, limits are never exceeded): with a consistent QoS (depth >= 1, depth <= max_samples_per_instance),
-    after ANY event list the writer holds at most max_samples samples, max_instances instances and
-    max_samples_per_instance samples of each instance -/
+    after ANY event list (unregister_instance included) the writer holds at most max_samples samples, max_instances
+    REGISTERED instances and max_samples_per_instance samples of each instance -/
 theorem C19_writer_limits (q : Qos) (hq : QosOk q) (evs : List Ev) :
     (∀ m, q.maxSamples = some m → totalSamples (run (St.init q) evs).insts ≤ m) ∧
-    (∀ m, q.maxInstances = some m → (run (St.init q) evs).insts.length ≤ m) ∧
+    (∀ m, q.maxInstances = some m → regCount (run (St.init q) evs).insts ≤ m) ∧
     (∀ m, q.maxSpi = some m → ∀ i ∈ (run (St.init q) evs).insts, i.samples.length ≤ m) := by
   have hrun : ∀ (evs : List Ev) (s : St), WInv s → WInv (run s evs) ∧ (run s evs).qos = s.qos := by
     intro evs
@@ -175,7 +182,7 @@ theorem C19_writer_limits (q : Qos) (hq : QosOk q) (evs : List Ev) :
       have hq1 : (step s e).1.qos = s.qos := step_qos s e
       exact ⟨(ih _ h1).1, by simp only [run]; rw [(ih _ h1).2, hq1]⟩
   have h0 : WInv (St.init q) := by
-    refine ⟨hq, ⟨?_, ?_, ?_⟩, ?_⟩ <;> intro m _ <;> simp [St.init, totalSamples, LenOk]
+    refine ⟨hq, ⟨?_, ?_, ?_⟩, ?_⟩ <;> intro m _ <;> simp [St.init, totalSamples, LenOk, regCount]
   obtain ⟨⟨_, ⟨h1, h2, h3⟩, _⟩, hqq⟩ := hrun evs _ h0
   rw [hqq] at h1 h2 h3
   exact ⟨h1, h2, fun m hm => h3 m hm⟩
@@ -208,9 +215,12 @@ theorem C19_writer_refuses_asis_partial (s : St) (k : Nat) (v : Int) (ts now : I
   split
   · simp
   · split
-    · refine ⟨rfl, rfl, rfl, rfl, totalSamples_regInsts _ _, ?_, ?_⟩
+    · refine ⟨rfl, rfl, rfl, rfl, ?_, ?_, ?_⟩
+      · simp only [regInstsAsIs]; split
+        · rfl
+        · simp [totalSamples_append, totalSamples]
       · intro k'
-        simp only [regInsts]
+        simp only [regInstsAsIs]
         split
         · rfl
         · rename_i hn
@@ -224,7 +234,7 @@ theorem C19_writer_refuses_asis_partial (s : St) (k : Nat) (v : Int) (ts now : I
           · cases hf : findInst k' s.insts with
             | none => simp [samplesOfKey, hf, findInst_append_none _ hf, findInst, Ne.symm hk]
             | some i => simp [samplesOfKey, hf, findInst_append_some _ hf]
-      · intro hs; simp [regInsts, hs]
+      · intro hs; simp [regInstsAsIs, hs]
     · rename_i h1 h2
       exfalso
       simp only [h1, h2] at h
